@@ -23,6 +23,7 @@ type Program struct {
 	harness  map[string]*ssa.Function // H_* entry points by name
 	loadSecs float64
 	dropped  []string
+	needsInit map[*ssa.Global]bool // globals written by the init functions of packages whose init is not executed
 	stale    map[string]string // harness entry point -> dropped harness file that defined it
 }
 
@@ -138,8 +139,41 @@ func loadProgram(repo, harnessDir string) (*Program, error) {
 	prog, _ := ssautil.AllPackages(initial, ssa.InstantiateGenerics)
 	prog.Build()
 	p := &Program{prog: prog, pkgs: map[string]*ssa.Package{}, fset: prog.Fset, repo: repo, harness: map[string]*ssa.Function{}, dropped: dropped, stale: stale}
+	p.needsInit = map[*ssa.Global]bool{}
 	for _, sp := range prog.AllPackages() {
 		p.pkgs[sp.Pkg.Path()] = sp
+		if initAllow[sp.Pkg.Path()] {
+			continue
+		}
+		for name, mem := range sp.Members {
+			fn, ok := mem.(*ssa.Function)
+			if !ok || !(name == "init" || strings.HasPrefix(name, "init#")) {
+				continue
+			}
+			for _, b := range fn.Blocks {
+				for _, in := range b.Instrs {
+					st, ok := in.(*ssa.Store)
+					if !ok {
+						continue
+					}
+					a := st.Addr
+					for {
+						switch x := a.(type) {
+						case *ssa.FieldAddr:
+							a = x.X
+							continue
+						case *ssa.IndexAddr:
+							a = x.X
+							continue
+						}
+						break
+					}
+					if g, ok := a.(*ssa.Global); ok {
+						p.needsInit[g] = true
+					}
+				}
+			}
+		}
 	}
 	for _, path := range goatPkgs {
 		sp := p.pkgs[path]
